@@ -2,7 +2,7 @@
 import json
 import common, enc, gen, seq, sweep, impl, directed
 
-TOP = ['theories/Props/C08.v', 'theories/Tie/TieTables.v', 'theories/Tie/TieSeq.v']
+TOP = ['theories/Props/C08.v', 'theories/Tie/TieTables.v', 'theories/Tie/TieSeq.v', 'theories/Tie/TieSeqBody.v']
 RULE = ('contents of every mode (digits, alphanumeric, bytes, latin-1, Shift JIS kanji, multi-byte UTF-8 text, hanzi, ints) with lengths '
         'around the Structured Append thresholds of versions 1,2,5,10,27,40, by version and by symbol_count 1..16; every symbol '
         'is decoded by the extracted reference decoder: header (index, total-1, parity = XOR of the message bytes), fit, concatenation')
@@ -47,6 +47,24 @@ def run(ctx):
         if rng.random() < 0.5:
             c['boost_error'] = False
         cases.append(c)
+    # mode x encoding product: the parity byte and the payload must be computed with the same bytes (Hanzi always GB2312,
+    # whatever `encoding` says; Kanji Shift JIS)
+    for kind, mode in (('hanzi', 'hanzi'), ('kanji', 'kanji'), ('hanzi', None), ('kanji', None), ('latin1', 'byte'), ('bmp', 'byte'), ('bmp', None)):
+        for encoding in (None, 'utf-8', 'shift_jis', 'gb2312', 'iso-8859-1', 'utf-16-be'):
+            for how in ({'symbol_count': 2}, {'symbol_count': 3}, {'version': 1}, {'version': 2}):
+                c = dict(content=enc.gen_content(rng, kind, 45), mask=rng.randrange(8), **how)
+                if mode:
+                    c['mode'] = mode
+                if encoding:
+                    c['encoding'] = encoding
+                cases.append(c)
+    # chunks are cut by characters: contents whose characters differ in encoded size, light half first / heavy half first
+    for n in (5, 11, 17, 30, 61):
+        for light, heavy in (('a', '\u20ac'), ('1', '\u00e4\u20ac'), ('A', '\u7075')):
+            for sc in (2, 3, 5):
+                for content in (light * n + heavy * n, heavy * n + light * n, (light + heavy) * n):
+                    cases.append(dict(content=content, symbol_count=sc, mask=rng.randrange(8)))
+                    cases.append(dict(content=content, symbol_count=sc, mask=rng.randrange(8), error='Q', boost_error=False))
     # boundary-directed: chunk sizes around the per-symbol capacity with the 20-bit Structured Append header,
     # by symbol_count (version search with the header) and by version (boosting with the header)
     for v in ([1, 2, 3] if not ctx.thorough else [1, 2, 3, 5, 9, 10]):
